@@ -382,11 +382,10 @@ Theorem encode_decodes cl drawn r c bs :
 Proof. intros Hc Hd W E.
   destruct (Z_le_gt_dec (spec_length r) CMD_BUF) as [L|G].
   - rewrite (encode_fits cl drawn r L) in E. inversion E; subst c bs. clear E.
-    repeat split.
-    + apply request_code.
-    + unfold encode_cmd_spec. rewrite Zlength_fencs. apply fsizes_request_fields.
-    + exact L.
-    + rewrite request_code. apply decode_spec_encode_spec; try assumption. apply wire_correlation_id_range, Hd.
+    split; [reflexivity|]. split; [apply request_code|]. split; [reflexivity|].
+    split; [unfold encode_cmd_spec; rewrite Zlength_fencs; apply fsizes_request_fields|].
+    split; [exact L|].
+    rewrite request_code. apply decode_spec_encode_spec; try assumption. apply wire_correlation_id_range, Hd.
   - rewrite (encode_rejects cl drawn r ltac:(lia)) in E. discriminate. Qed.
 
 (* a rejected request leaves the ring untouched and draws no correlation id *)
